@@ -4,7 +4,7 @@
 From Coq Require Import List NArith ZArith Floats Bool.
 From LW Require Import Base.Outcome Base.Bytes Base.Hex Crypto.KeyWrap Crypto.KeyWrapAny
   Backend.F64 Backend.HexBytes Backend.KeyEnvelope Backend.KeyEnvelopeAny Backend.Iso8601.
-From LW Require Export Backend.Json.   (* the case files spell trees with its constructors *)
+From LW Require Export Backend.F64 Backend.Json Backend.Payload Backend.PayloadTables.   (* the case files spell trees, values and type tables with their names *)
 Import ListNotations.
 Open Scope Z_scope.
 
@@ -37,7 +37,15 @@ Inductive case :=
    (members in order, duplicates kept) *)
 | CJsonParse (text : list N) (valid : bool) (as_map ordered : option jvalue)
 (* n times [ (or {"a":) then the closing brackets: the nesting limit *)
-| CJsonDeep (obj : bool) (n : N) (valid : bool).
+| CJsonDeep (obj : bool) (n : N) (valid : bool)
+(* a payload value of the Go type described by t: the float texts seen in this run (float, text), the bytes of
+   json.Marshal(x), those of json.Marshal(&x) when they differ, and what json.Unmarshal makes of the bytes *)
+| CStruct (t : ftype) (v : gval) (floats : list (float * list N)) (by_value : list N)
+          (by_pointer : option (list N)) (back : option gval)
+(* the same when Marshal(&x) gave the same bytes and Unmarshal gave back a value that prints like x *)
+| CStructSame (t : ftype) (v : gval) (floats : list (float * list N)) (by_value : list N)
+(* json.Unmarshal of a document into a zero value of the type *)
+| CStructDecode (t : ftype) (floats : list (float * list N)) (text : list N) (back : option gval).
 
 Definition oz_eqb (a : option Z) (b : Z) : bool := match a with Some x => x =? b | None => false end.
 Definition obeqb := outcome_eqb bytes_eqb.
@@ -45,6 +53,8 @@ Definition opair_eqb (a b : outcome (list N * list N)) : bool :=
   outcome_eqb (fun x y => bytes_eqb (fst x) (fst y) && bytes_eqb (snd x) (snd y)) a b.
 
 Definition in_u32 (z : Z) : bool := (0 <=? z) && (z <? 4294967296).
+
+Definition is_none {A} (o : option A) : bool := match o with None => true | Some _ => false end.
 
 Definition ozz_eqb (a b : option (Z * Z)) : bool :=
   match a, b with
@@ -64,10 +74,22 @@ Definition deep_text (obj : bool) (n : nat) : list N :=
   if obj then concat (repeat [123; 34; 97; 34; 58]%N n) ++ [49%N] ++ repeat 125%N n
   else repeat 91%N n ++ repeat 93%N n.
 
+Definition codec_of (floats : list (float * list N)) : fcodec := table_codec floats.
+
 (* the instants RFC 3339 can carry: local year 0..9999, zone offset a whole number of minutes, less than a day *)
 Definition rfc3339_range (secs off : Z) : bool :=
   (-62167219200 <=? secs + off) && (secs + off <=? 253402300799) &&
   (off mod 60 =? 0) && (-86400 <? off) && (off <? 86400).
+
+Definition check_struct (t : ftype) (v : gval) (floats : list (float * list N)) (by_value : list N)
+    (by_pointer : option (list N)) (back : option gval) : N :=
+  let c := codec_of floats in
+  let dec := decode c t by_value in
+  code (bytes_eqb (encode c t v) by_value && is_none by_pointer && ogval_eqb dec back)
+       (* a value of the claimed domain comes back, from Go's decoder and from the model's reading of the
+          observed bytes (the keys of the specification), as its normal form *)
+       (negb (twf t && has_type t false v) ||
+        (ogval_eqb back (Some (norm t false v)) && ogval_eqb dec (Some (norm t false v)))).
 
 Definition check (c : case) : N :=
   match c with
@@ -138,6 +160,10 @@ Definition check (c : case) : N :=
     | PErr => code (negb valid) true
     | PFuel => 3%N                       (* the parser ran out of fuel: JsonProofs.json_parse_total is violated *)
     end
+  | CStruct t v floats by_value by_pointer back => check_struct t v floats by_value by_pointer back
+  | CStructSame t v floats by_value => check_struct t v floats by_value None (Some v)
+  | CStructDecode t floats text back =>
+    code (ogval_eqb (decode (codec_of floats) t text) back) true
   | CJsonDeep obj n valid =>
     match json_parse (deep_text obj (N.to_nat n)) with
     | POk _ => code valid true
